@@ -16,17 +16,7 @@ def featOf : String → Option Feat
   | "ts_vkurt" | "ts_kurt" => some .kurt
   | _ => none
 
-def specFeat (f : Feat) (w : Nat) (mp : Option Nat) (l : List Rat) : Out :=
-  let m := effMp mp w f.minK
-  match f with
-  | .sum => Spec.tsSum m l
-  | .mean => Spec.tsMean m l
-  | .ewm => Spec.tsEwm w m l
-  | .wma => Spec.tsWma m l
-  | .std => Spec.tsStd m l
-  | .var => Spec.tsVar m l
-  | .skew => Spec.tsSkew m l
-  | .kurt => Spec.tsKurt m l
+def specFeat (f : Feat) (w : Nat) (mp : Option Nat) (l : List Rat) : Out := Spec.feat f w mp l
 
 /-- from-scratch evaluation of every window -/
 def specRolling (xs : List (Option Rat)) (w : Nat) (F : List Rat → Out) : List Out :=
